@@ -26,11 +26,11 @@ CONCRETE_IO = [0.1, 0.5, 0.9, 1.5]
 CONCRETE_VI = [2.5, 5.0, 12.0, 20.0]
 
 
-def mk_table(ctx, name, key, n_io, n_vi, assume_axes=True, concrete_axes=False):
+def mk_table(ctx, name, key, n_io, n_vi, assume_axes=True, concrete_axes=False, neg_rows=False):
     if concrete_axes:
         io, vi = CONCRETE_IO[:n_io], CONCRETE_VI[:n_vi]
         z = [[ctx.real("%s.%s[%d][%d]" % (name, key, j, i)) for i in range(n_io)] for j in range(n_vi)]
-        return Table(io, vi, z)
+        return Table(io, vi, z, neg_rows=neg_rows)
     io = [ctx.real("%s.%s.io[%d]" % (name, key, i)) for i in range(n_io)]
     vi = [ctx.real("%s.%s.vi[%d]" % (name, key, j)) for j in range(n_vi)]
     z = [[ctx.real("%s.%s[%d][%d]" % (name, key, j, i)) for i in range(n_io)] for j in range(n_vi)]
@@ -45,9 +45,11 @@ def mk_table(ctx, name, key, n_io, n_vi, assume_axes=True, concrete_axes=False):
 
 
 def parse_form(form):
-    """'const' | 't1xN' (1-D, N io points) | 't2xNxM' (2-D, N io points, M vi rows); prefix 'c' = concrete axes."""
+    """'const' | 't1xN' (1-D, N io points) | 't2xNxM' (2-D, N io points, M vi rows); prefix 'c' = concrete axes, 'nc' = concrete axes with negative vi rows."""
     if form in ("const", "opaque"):
         return None
+    if form.startswith("n"):  # 'n' = vi rows written negative (see spec.Table.neg_rows); only with concrete axes
+        form = form[1:]
     if form.startswith("c"):
         form = form[1:]
     if form.startswith("t1x"):
@@ -83,7 +85,7 @@ def params(ctx, kind, name, form="const", fixed=None, loss=False, nmux=1, rs_lis
             P[key] = OpaqueTable(name, key)
         elif key == TABLE_KEY.get(kind) and parse_form(form):
             n_io, n_vi = parse_form(form)
-            P[key] = mk_table(ctx, name, key, n_io, n_vi, assume_axes, concrete_axes=form.startswith("c"))
+            P[key] = mk_table(ctx, name, key, n_io, n_vi, assume_axes, concrete_axes=form.lstrip("n").startswith("c"), neg_rows=form.startswith("n"))
         elif key == "rs" and kind == "PMux" and rs_list:
             P[key] = [ctx.real("%s.rs[%d]" % (name, i)) for i in range(nmux)]
         else:
